@@ -73,6 +73,7 @@ where
 
     let min_shift = read_min_shift(reader)?;
     let depth = read_depth(reader)?;
+    validate_bin_geometry(min_shift, depth)?;
 
     let header = read_aux(reader).map_err(ReadError::InvalidHeader)?;
 
@@ -127,6 +128,24 @@ where
 {
     let n = read_i32_le(reader)?;
     u8::try_from(n).map_err(ReadError::InvalidDepth)
+}
+
+// The bin geometry is used unchecked by the binning scheme (`reg2bin`, `reg2bins`, `bin_limit`,
+// `max_position`), so a file-provided one has to be validated here.
+fn validate_bin_geometry(min_shift: u8, depth: u8) -> Result<(), ReadError> {
+    // `CSIv1.pdf` (2020-07-21): bin IDs are `int32_t`, which limits the depth.
+    const MAX_DEPTH: u8 = 10;
+
+    let max_position_bits = u32::from(min_shift) + 3 * u32::from(depth);
+
+    if min_shift > 0 && depth <= MAX_DEPTH && max_position_bits < usize::BITS {
+        Ok(())
+    } else {
+        Err(ReadError::Io(io::Error::new(
+            io::ErrorKind::InvalidData,
+            "invalid bin geometry",
+        )))
+    }
 }
 
 fn read_unplaced_unmapped_record_count<R>(reader: &mut R) -> Result<Option<u64>, ReadError>
